@@ -71,6 +71,7 @@ def run(check: Check):
       check.ob('R-SIB.exhaustive', mth, f'{ci.name}.{name}({", ".join(mth.positional_params)})', ok,
                f'interface has {len(af.positional_params)} positional parameters', nontrivial=False)
   _ranges(check, impls)
+  _subset_total(check)
   _none_tests(check, impls)
   _cursors(check)
   _range_where(check)
@@ -456,6 +457,45 @@ def _derive(check: Check):
           ok = ok and txt(ids) == 'self._client_ids'
       check.ob('R-DERIVE', mth, txt(rv)[:100] if rv is not None else 'return', ok,
                f'the wrapper must apply {name} to its base with the same arguments and keep (or narrow) its own id set', node=rv)
+
+
+def _subset_total(check: Check):
+  """R-FILTER.total: SubsetFederatedData filters the streams of its base. The base interface promises no iteration order (SQLite
+  iterates in insertion order), so a filter loop may never leave early: no break / return inside a loop over self._base.<stream>()."""
+  repo = check.repo
+  sub = repo.cls(FD, 'SubsetFederatedData')
+  n = 0
+  for name in ('client_sizes', 'clients', 'shuffled_clients', 'client_ids'):
+    try:
+      mth = sub.method(name)
+    except Exception:
+      continue
+    if mth is None:
+      continue
+    check.analysed(mth)
+    for lp in ast.walk(mth.node):
+      if isinstance(lp, (ast.For, ast.While)) and any(
+          isinstance(x, ast.Attribute) and txt(x).startswith('self._base.') for x in ast.walk(lp.iter if isinstance(lp, ast.For) else lp.test)):
+        n += 1
+        exits = []
+        stack = list(lp.body)
+        while stack:
+          x = stack.pop()
+          if isinstance(x, (ast.FunctionDef, ast.Lambda, ast.AsyncFunctionDef)):
+            continue
+          if isinstance(x, (ast.Break, ast.Return)):
+            exits.append(x)
+          if isinstance(x, (ast.For, ast.While)):
+            # a break inside a nested loop leaves that loop only; a return leaves ours
+            stack.extend(y for y in ast.walk(x) if isinstance(y, ast.Return))
+            continue
+          stack.extend(ast.iter_child_nodes(x))
+        check.ob('R-FILTER.total', mth, f'for ... in {txt(lp.iter)[:60] if isinstance(lp, ast.For) else txt(lp.test)[:60]}', not exits,
+                 'the filter visits every element of the base stream' if not exits else
+                 f'the loop over the base stream is left early ({type(exits[0]).__name__.lower()} at line {exits[0].lineno}): the base '
+                 'promises no id order (SQLite iterates in insertion order), so members of the subset that come later are dropped',
+                 node=exits[0] if exits else lp, exact=True)
+  check.floor('R-FILTER.total', 'filter loops over a base stream in SubsetFederatedData', n, 1)
 
 
 def _slice_filters(check: Check):
